@@ -223,7 +223,7 @@ class Product:
         for (t, v, w) in e.decisions:
             if t[0] == "app" and t[1] == "has_next":
                 it = t[2][0]
-                level = "C" if (it[0] == "iter" and it[1] == "enumerate") else "F" if (it[0] == "iter" and it[1] == "flat_map") else "I"
+                level = "C" if (it[0] == "iter" and it[1] in ("enumerate", "zip")) else "F" if (it[0] == "iter" and it[1] == "flat_map") else "I"
                 seq.append((level, v))
         if not seq:
             return "none"
@@ -240,8 +240,12 @@ class Product:
                 return "first"
             if seq == [("I", 0)]:
                 return "done"
+            if seq == [("C", 1)]:
+                return "first"        # the items are a fixed collection walked concretely (`[block].into_iter()`): only chunk-level tests remain
             return "invalid"
         if src_kind == "X2":
+            if seq == [("C", 0)]:
+                return "done"         # (same: the last chunk of the last item of a fixed collection)
             if seq == [("C", 1)]:
                 return "next-chunk"
             if seq == [("C", 0), ("I", 1), ("C", 1)]:
